@@ -101,6 +101,24 @@ def check_C16(tier, seed):
             d = json.loads(tla_unquote(rest))
             res.violation(f"type does not survive {'rendering and parsing' if cls == 'C16.typetext' else 'serde round trip'}: {json.dumps(d)[:200]}", text=json.dumps(d), tags={cls}, replay={"case": d})
     ntypes = len(tl["types"])
+    # (a') types up to the maximum list depth (30 levels): a sample of depths x nullability patterns through the same judge
+    deep = []
+    for d in (4, 5, 8, 15, 16, 17, 20, 24, 29, 30):
+        for pat in ("nullable", "nonnull", "alternate", "outer_nonnull", "inner_nonnull"):
+            mods = {"nullable": [True] * (d + 1), "nonnull": [False] * (d + 1), "alternate": [k % 2 == 0 for k in range(d + 1)],
+                    "outer_nonnull": [False] + [True] * d, "inner_nonnull": [True] * d + [False]}[pat]
+            deep.append({"base": "Int" if d % 2 else "String", "mods": mods})
+    dtypes, dout = os.path.join(wd, "deep.json"), os.path.join(wd, "deep.res.ndjson")
+    json.dump({"types": deep, "values": []}, open(dtypes, "w"))
+    vh(["typeall", dtypes, dout])
+    j = tlc("JudgeTypes", "JudgeTypes.cfg", {"TYPES": dtypes, "OBS": dout}, wd, workers=8, timeout=1200); res.add_tlc(j)
+    dvs = parse_verdicts(j["out"])
+    if len([v for v in dvs if v[1] in ("done", "C17.panic")]) != len(deep): raise ToolError("JudgeTypes (deep types): missing verdicts\n" + j["out"][-2500:])
+    for iid, cls, rest in dvs:
+        if cls.startswith("C16.") or cls == "C17.panic":
+            d = json.loads(tla_unquote(rest)) if rest.strip().startswith('"') else {"raw": rest}
+            res.violation(f"deeply nested type does not survive {'rendering and parsing' if cls == 'C16.typetext' else 'a round trip'}: {json.dumps(d)[:200]}", text=json.dumps(d), tags={cls, "deep"}, replay={"case": d})
+    ntypes += len(deep)
     # (b) values: the TLC-dumped universe through JSON, RON and the untagged form
     from props_pure import run_mc_values
     uni, _ = run_mc_values(res, wd)
@@ -136,7 +154,7 @@ def check_C16(tier, seed):
             res.sample({"query": inst["text"], "ir_json_bytes": rt["bytes"]})
     res.cov["evaluations"] = ntypes + len(vals) + nq
     res.cov["distinct_nontrivial"] = ntypes + nontriv + len({inst["text"] for inst, o in zip(insts, obs) if o.get("irrt")})
-    res.cov["rule"] = (f"{ntypes} types (TLC-dumped; Display tokens = Types!Render, parse(Display) = identity, JSON and RON identity), {len(vals)} field values (TLC-dumped universe; JSON, RON, untagged JSON and back) and "
+    res.cov["rule"] = (f"{ntypes} types (TLC-dumped up to 3 list levels plus 50 types of depth 4..30; Display tokens = Types!Render, parse(Display) = identity, JSON and RON identity), {len(vals)} field values (TLC-dumped universe; JSON, RON, untagged JSON and back) and "
                        f"{nq} compiled queries of the semantic universe (IRQuery JSON/RON, IndexedQuery RON, re-indexing); distinct by value / type / query text; all are non-trivial inputs")
     res.notes["model_content"] = "thin: identity laws and the token grammar of types (TextLaws in MC_Types.tla)"
     return res
